@@ -240,6 +240,26 @@ func oneScenario(w *mon.W, c *mon.Case) {
 		time.Sleep(s.ExitWait / 2)
 		close(gate)
 	}
+	// late arrivals: requests sent just after Shutdown was called.  Allowed outcomes:
+	// refused, closed without a byte, or one complete response — never a truncated one.
+	nLate := r.Intn(4)
+	lateRes := make([][]byte, nLate)
+	var lwg sync.WaitGroup
+	for i := 0; i < nLate; i++ {
+		lwg.Add(1)
+		delay := time.Duration(r.Intn(3000)) * time.Microsecond
+		go func(i int) {
+			defer lwg.Done()
+			time.Sleep(delay)
+			cn, err := net.DialTimeout("tcp", addr, 300*time.Millisecond)
+			if err != nil {
+				return
+			}
+			defer cn.Close()
+			io.WriteString(cn, "GET /quick HTTP/1.1\r\nHost: x\r\n\r\n")
+			lateRes[i] = readAll(cn, s.ExitWait+3*time.Second)
+		}(i)
+	}
 	// complete the mid-request bodies after shutdown began
 	for _, cn := range mid {
 		io.WriteString(cn, "56789")
@@ -346,6 +366,19 @@ func oneScenario(w *mon.W, c *mon.Case) {
 			return
 		}
 		w.Count("mid_answered", 1)
+	}
+	lwg.Wait()
+	for i, b := range lateRes {
+		if len(b) == 0 {
+			w.Count("late_refused_or_closed", 1)
+			continue
+		}
+		msgs, err := wire.ParseResponses(b, []string{"GET"}, true)
+		if err != nil || len(msgs) != 1 || msgs[0].Status != 200 || string(msgs[0].Body) != "quick" {
+			fail("late-truncated", "a request sent just after Shutdown was called (late client %d) received a partial or wrong response: %v %q", i, err, string(b[:min(len(b), 120)]))
+			return
+		}
+		w.Count("late_answered", 1)
 	}
 	for _, cn := range idle {
 		cn.Close()
